@@ -1,9 +1,10 @@
 """C09: check configuration (PROPS_ENTRY, consumed by ./check and gen_manifest.py) and the list of lemmas that make up
 the property file (SPEC_ENTRY, consumed by tools/mkprops.py)."""
-PROPS_ENTRY = {'models': ['Model/Layout.v', 'Model/Teardown.v', 'Model/Gpu.v', 'Model/GpuSpec.v', 'Model/Sound.v', 'Model/SoundSpec.v'],
+PROPS_ENTRY = {'models': ['Model/Layout.v', 'Model/Teardown.v', 'Model/Gpu.v', 'Model/GpuSpec.v', 'Model/Sound.v', 'Model/SoundSpec.v', 'Model/Mmio.v', 'Model/MmioSpec.v'],
  'design_ref': 'DESIGN.md 3 C09',
  'exhaustive': False,
- 'assumptions': ['the check also runs the blocking sound playback histories of C20 (scenario c20snd-xfer-*: when pcm_xfer returns nothing it posted is still shared) and the GPU lives of C20 (scenario c20gpu-*, monitor 2023: backing memory attached to a resource is not released) and their correspondence lines',
+ 'assumptions': ['the directed register-level cases of the MMIO transport (scenario c10-directed-*, monitors 1011 / 1021) also run under this check: queue_unset really disables the queue on both layouts',
+                 'the check also runs the blocking sound playback histories of C20 (scenario c20snd-xfer-*: when pcm_xfer returns nothing it posted is still shared) and the GPU lives of C20 (scenario c20gpu-*, monitor 2023: backing memory attached to a resource is not released) and their correspondence lines',
                  'Drop order is TRANSCRIBED, not derived from rustc: the interpreter of Model/Teardown.v implements the language rules once (early return: live locals in '
                  'reverse declaration order, then the by-value parameter; struct: Drop::drop, then fields in declaration order; moved values are not dropped; assignment '
                  'drops the old field value) and each driver contributes its list of constructor steps, its field order and the queue_unset calls of its Drop impl as '
